@@ -9,10 +9,11 @@ CHECK_FN = "check_cases"
 MISMATCH_IS_VIOLATION = True   # P is equality with the refined spec: a mismatch is a counter-example
 RULE = ("histories of 5-60 LRUCache calls (put/get/delete/clear/size/capacity/stats/keys/cleanup) over 3-7 keys, "
         "capacities {-3,0,1,2,3,5,100}, lifetimes {0, 1h, 1ns, 20ms with 30ms sleeps}; every return value is compared with "
-        "Model/Lru.v step by step; non-trivial = contains at least one Put and one hit Get; distinct = distinct (cap, ttl, op list)")
+        "Model/Lru.v step by step; non-trivial = contains at least one Put and one hit Get; distinct = distinct (cap, ttl, op list). conc family: 2-12 goroutines x "
+        "100-300 thousand lookups of stored and never-stored keys on one cache (nothing inserted or removed meanwhile): hit / miss / eviction / size totals must equal the number of lookups issued")
 TRUSTED = ["correspondence harness (Go generator, JSON->Coq emitter, verdict parser)",
            "time.Now monotone; a history is discarded when any age-vs-lifetime comparison lies within the measured call-duration uncertainty"]
-ASSUMPTIONS = ["monotone clock", "sequential use (concurrency is C11)"]
+ASSUMPTIONS = ["monotone clock", "histories are sequential (interleavings are C11); the statistics clause is additionally sampled under concurrent lookups"]
 
 
 def keep(c):
@@ -49,6 +50,16 @@ def coq_op(o):
 def coq_case(c):
     return "{| c_cap := %s; c_ttl := %s; c_ops := %s |}" % (
         core.cz(c["cap"]), core.cz(c["ttl"]), core.clist([coq_op(o) for o in c["ops"]]))
+
+
+FAMILIES = {"conc": dict(
+    HARNESS="c12conc", N={"quick": 6, "thorough": 60}, SHARD=60, CASE_TYPE="conccase", CHECK_FN="check_cases",
+    HEADER="From Coq Require Import List String ZArith Bool.\nFrom WTF Require Import Check.Render Check.C12Conc.\nImport ListNotations.\n",
+    coq_case=lambda c: "{| q_want_hits := %s; q_want_misses := %s; q_hits := %s; q_misses := %s; q_evictions := %s; q_size := %s; q_wrong := %s |}" % tuple(
+        core.cz(c[k]) for k in ("want_hits", "want_misses", "hits", "misses", "evictions", "size", "wrong_value")),
+    identity=lambda c: [c["goroutines"], c["per"], c["id"]],
+    sample=lambda c: {"family": "conc", "goroutines": c["goroutines"], "lookups_each": c["per"], "hits": c["hits"], "misses": c["misses"]},
+)}
 
 
 def identity(c):
